@@ -90,6 +90,8 @@ def run(cx: Cx):
             if lf.cond != _T:
                 cx.violation('R-ITER', add.qualname, 'one-value-per-cell-in-id-order', f"cells can be skipped (filter {lf.cond!r}): all later "
                              f"values shift against the cell ids", where=where)
+            elif lf.elem != want_elem and _exact_type_shortcut(cx, p, gen, lf.elem, lf.base_var, cells):
+                pass        # a source of exactly a bundled generator class, answered with what that class's __call__ returns
             elif lf.elem != want_elem:
                 cx.violation('R-FWD', add.qualname, 'generator-called-with-position-then-cells',
                              f"the callable source is evaluated as {lf.elem!r}; every cell's value must be generator(<that cell's position>, "
@@ -300,3 +302,34 @@ def _arm(arms, pcond, v, p, pos, arity, table):
             return FConst(eval_formula(a, {a.base: Fraction(arity)}, {}))
         return None
     arms.append((depth, subst_atoms(pcond, fold), p, t == table))
+
+
+def _exact_type_shortcut(cx: Cx, p, gen, elem, pos, cells) -> bool:
+    """On a path that established `type(generator) is <bundled generator class>` (exactly that class, so no override is skipped),
+    the stored element is what that class's __call__(generator, pos, cells) returns."""
+    from sa.terms import atoms_of, AEq, subst_term
+    from sa.walker import _Ctx, State
+    for a in atoms_of(p.cond):
+        if isinstance(a, AEq) and a.a == App('type', (gen,)) and isinstance(a.b, Sym) and implies(p.cond, a) is None:
+            ci = cx.prog.classes.get(a.b.name)
+            if ci is None or '__call__' not in ci.methods:
+                continue
+            call = ci.methods['__call__'][0]
+            rows = []
+            for q in cx.walker.paths(call, WalkOptions(unroll=1, callee_raises=False)):
+                if q.end != 'return' or any(e.kind in ('store', 'call') for e in q.events):
+                    return False
+                rows.append((q.cond, q.last.data.get('value')))
+            if len(rows) != 1:
+                return False
+            ps_ = call.params
+            mapping = {Sym(ps_[0]): gen}
+            if len(ps_) > 1:
+                mapping[Sym(ps_[1])] = pos
+            if len(ps_) > 2:
+                mapping[Sym(ps_[2])] = cells
+            try:
+                return subst_term(rows[0][1], mapping) == elem
+            except Exception:
+                return False
+    return False
